@@ -417,7 +417,61 @@ func c02(c *Ctx) {
 				}
 				return true
 			})
-			c.Check(len(readKey) == 1 && len(writeKey) == 1 && readKey[0] == writeKey[0] && readVar != nil && readVar == writeVar, "R4", "aggregate|"+sp.fn+"|entry written back under the key it was read with", at(ax.M, fn.Pos()),
+			sameKey := len(readKey) >= 1 && len(writeKey) == 1 && readVar != nil && readVar == writeVar
+			for _, rk := range readKey {
+				if len(writeKey) == 1 && rk != writeKey[0] {
+					sameKey = false
+				}
+			}
+			if sameKey && len(readKey) > 1 {
+				// several look-ups through one key variable (a fast path for known sets, then the limited key): the write-back uses the
+				// key of the LAST look-up on each path — wherever the key variable changes, another look-up comes before the write
+				isRead := func(n ast.Node) bool {
+					as, ok := n.(*ast.AssignStmt)
+					if !ok || len(as.Rhs) != 1 {
+						return false
+					}
+					ie, isIx := unparen(as.Rhs[0]).(*ast.IndexExpr)
+					return isIx && isField(ainfo, ie.X, fVals)
+				}
+				reads := toSet(g.Match(isRead))
+				var wnode *GNode
+				var wkey ast.Expr
+				for _, x := range g.Nodes {
+					if as, ok := x.N.(*ast.AssignStmt); ok {
+						for _, l := range as.Lhs {
+							if ie, isIx := unparen(l).(*ast.IndexExpr); isIx && isField(ainfo, ie.X, fVals) {
+								wnode, wkey = x, ie.Index
+							}
+						}
+					}
+				}
+				for _, x := range g.Nodes {
+					as, ok := x.N.(*ast.AssignStmt)
+					if !ok || wnode == nil || reads[x] {
+						continue
+					}
+					touches := false
+					for _, l := range as.Lhs {
+						if id, isID := unparen(l).(*ast.Ident); isID {
+							o := ainfo.ObjectOf(id)
+							ast.Inspect(wkey, func(m ast.Node) bool {
+								if kid, isK := m.(*ast.Ident); isK && o != nil && ainfo.Uses[kid] == o {
+									touches = true
+								}
+								return !touches
+							})
+						}
+					}
+					if !touches {
+						continue
+					}
+					if s2, _ := g.Reach([]*GNode{x}, func(y *GNode) bool { return reads[y] }, nil); s2[wnode] {
+						sameKey = false
+					}
+				}
+			}
+			c.Check(sameKey, "R4", "aggregate|"+sp.fn+"|entry written back under the key it was read with", at(ax.M, fn.Pos()),
 				"values["+strings.Join(readKey, "")+"] read-modify-write", "the updated entry is stored under a different key than it was read from (or not stored): the measurement lands in another series or is lost")
 		}
 		if fn := c.Fn(ax, "R4", "(*buckets).bin"); fn != nil {
